@@ -413,3 +413,21 @@ def regress_cases(prop):
                 with open(os.path.join(d, name)) as f:
                     out.append((os.path.join(d, name), json.load(f)))
     return out
+
+
+# ----------------------------------------------------------------------------- exception bucketing
+
+def where(ex):
+    """innermost frame of the traceback that lies in the cardutil package: 'module.function'"""
+    tb = ex.__traceback__
+    best = None
+    while tb is not None:
+        fn = tb.tb_frame.f_code.co_filename
+        if (os.sep + 'cardutil' + os.sep) in fn:
+            best = os.path.splitext(os.path.basename(fn))[0] + '.' + tb.tb_frame.f_code.co_name
+        tb = tb.tb_next
+    return best or 'outside-cardutil'
+
+
+def exc_sig(prefix, ex):
+    return f'{prefix}:{type(ex).__name__}@{where(ex)}'
